@@ -24,3 +24,29 @@ NOT_CARRIED = ["len(str(kwargs)) is an uninterpreted integer (the rendered size 
                "tags / links of the reported entry are read through get_tags / get_delegate (assumed accessors); of ComponentType.__init__ only the "
                "window that collects a component's tags is under contract (class defaults + declared tags, class default list not modified)",
                "the output formatters other than get_response_of_types"]
+
+
+def bounded(check):
+    """bounded stand-in / native witness search: real rules of every kind through the real SingleEvaluator and JsonFormat"""
+    import json, os, subprocess
+    k = 2 if check.tier == "quick" else 3
+    here = os.path.dirname(os.path.dirname(os.path.abspath(__file__)))
+    p = subprocess.run(["/venv/bin/python", os.path.join(here, "bounded", "rules_small_scope.py"), check.repo.root, str(k)],
+                       stdout=subprocess.PIPE, stderr=subprocess.PIPE, universal_newlines=True, timeout=3000)
+    line = (p.stdout.strip().splitlines() or ["{}"])[-1]
+    try:
+        info = json.loads(line)
+    except ValueError:
+        info = {"error": (p.stderr or p.stdout)[-400:]}
+    out = dict(name="every kind of rule ending is accounted exactly as the property says (SingleEvaluator, JsonFormat)", level="bounded",
+               bound="18 rule kinds (6 typed responses, missing dependency, crash, 4 non-responses, missing / int key, reserved argument, deliberate skip, "
+                     "disabled, oversized), every subset of <= %d evaluated together" % k,
+               result=info, violation=(p.returncode == 1), error=(p.returncode not in (0, 1)))
+    if p.returncode == 1:
+        os.makedirs(os.path.join(here, "replays"), exist_ok=True)
+        path = os.path.join(here, "replays", "C12-bounded.json")
+        json.dump(dict(obligation="bounded:rules-small-scope", witness=info,
+                       replay_cmd="/venv/bin/python %s %s %d" % (os.path.join(here, "bounded", "rules_small_scope.py"), check.repo.root, k)),
+                  open(path, "w"), indent=1)
+        out["replay"] = path
+    return [out]
